@@ -749,19 +749,24 @@ def check(run: Run):
             t0 = time.time()
             if tier == "quick":
                 plans4 = plans4[:9]
-                recs4 = model(run, scratch, write_cfg(scratch, "MC_n4_few.cfg", 4, [2, 3], [True, False], plans4), "n4-few")
                 rest = [
                     ("MC_ComposedApp_quick.cfg", "n2-all", True),
                     (write_cfg(scratch, "MC_n3_pairwise.cfg", 3, [0, 1, 2, 3], [True, False], plans3), "n3-pairwise", True),
-                    (("MC_ComposedApp_live.cfg", live), "liveness", False),
                     # identifiers related by suffix / prefix / containing dots (serial order)
                     (write_cfg(scratch, "MC_n3_names.cfg", 3, [0], [True, False], plans3[::2], namings=NAMINGS), "n3-names", True),
                 ]
+                # (liveness - MC_ComposedApp_live.cfg - is checked in the thorough tier)
+                from concurrent.futures import ThreadPoolExecutor
+
+                rex = ThreadPoolExecutor(1)
+                rest_fut = rex.submit(models, run, scratch, rest, 3)
+                recs4 = model(run, scratch, write_cfg(scratch, "MC_n4_few.cfg", 4, [2, 3], [True, False], plans4), "n4-few")
                 _, par4 = index_records(recs4)
                 # forced schedules for n = 4 start now and run beside the rest of the work
                 pjobs, fjobs, nclasses, jid = build_parallel_jobs(run, tier, par4, {4: plans4}, in_dir, 10**6, rnd)
                 masters = Masters([j for j, _ in pjobs.values()] + list(fjobs.values()), scratch, "par", NMASTERS_QUICK)
-                recs = recs4 + models(run, scratch, rest, 4)
+                recs = recs4 + rest_fut.result()
+                rex.shutdown()
                 prepare_namings(in_dir, recs)
                 ser, par = index_records(recs)
             else:
